@@ -1,5 +1,6 @@
 """C38 — marble diagrams mean what the documented syntax says."""
 import reactivex
+from reactivex import operators as ops
 from reactivex.observable.marbles import parse
 from reactivex.observable import marbles as M
 
@@ -158,7 +159,7 @@ def h_parse(a, inst):
     return True
 
 
-@harness(instances=lambda tier: [{"L": 3 if tier == "quick" else 4, "first": f, "kind": k} for f in range(len(TOK)) for k in ("cold", "hot")],
+@harness(instances=lambda tier: [{"L": 3 if tier == "quick" else 4, "first": f, "kind": k} for f in range(len(TOK)) for k in ("cold", "hot", "hot_abs")],
          tok=I(0, len(TOK) - 1, n=lambda i: i["L"] - 1), ts=I(1, 2), timeout=(120, 1200))
 def h_deliver(a, inst):
     """from_marbles (cold) and hot deliver exactly the parsed notifications at the parsed times on the virtual-time scheduler"""
@@ -180,8 +181,17 @@ def h_deliver(a, inst):
         obs = reactivex.from_marbles(s, timespan=ts, lookup=LOOKUP, error=ERR)
         res = sch.start(lambda: obs, disposed=300)
         off = 200
+    elif inst["kind"] == "hot_abs":
+        # an absolute (datetime) duetime, with the hot observable created when the scheduler's clock is not at zero (inside
+        # start()'s create step, clock 100): real datetimes, so the stock TestScheduler is used (all times are concrete here)
+        from reactivex.testing import TestScheduler
+        sch = TestScheduler()
+        res = sch.start(lambda: M.hot(s, timespan=ts, duetime=sch.to_datetime(205), lookup=LOOKUP, error=ERR, scheduler=sch), disposed=300)
+        off = 205
     else:
         obs = M.hot(s, timespan=ts, duetime=205, lookup=LOOKUP, error=ERR, scheduler=sch)
+        # an earlier observer that unsubscribes from inside its first callback must not disturb the delivery to the others
+        sch.schedule_absolute(150, lambda sc, st: obs.pipe(ops.take(1)).subscribe(lambda v: None, lambda e: None, scheduler=sc))
         res = sch.start(lambda: obs, disposed=300)
         off = 205
     got = rec_tuples(res.messages)
@@ -202,7 +212,7 @@ def h_deliver(a, inst):
 ENCODED = ["reactivex/observable/marbles.py", "reactivex/testing/marbles.py"]
 BOUNDS = {"quick": "every string of 4 tokens (3 for the delivery harness) over the documented alphabet "
                    "['-', '|', '#', 'a', 'b', '1', '12', '(', ')', ',', ' ', '1.5'], timespan in [1,3], time shift in [0,2], "
-                   "raise_stopped on/off, a fixed lookup map (including falsy mapped values 0 and None); cold (from_marbles) and hot delivery on the virtual-time scheduler",
+                   "raise_stopped on/off, a fixed lookup map (including falsy mapped values 0 and None); cold (from_marbles) and hot delivery on the virtual-time scheduler (hot: relative duetime with an earlier observer that unsubscribes inside its first callback; absolute datetime duetime created at a non-zero clock)",
           "thorough": "6 tokens (parse), 4 (delivery)"}
 ASSUMES = ["the string structure is enumerated by the solver as token indices (a symbolic str through `re` is inconclusive in CrossHair)",
            "ill-formed strings (unbalanced parentheses) are outside the claim: only 'no crash other than ValueError' is required of them",
